@@ -316,9 +316,20 @@ def run_case(spec, sub=None):
             )
         elif via == "einsum_tree" and len(arrays) >= 2:
             # the tree (built from the parsed equation) must contract to numpy's value
-            ok, got = guarded(
-                lambda: ctg.einsum_tree(eq, *shp, optimize=spec["optimize"]).contract(arrays)
-            )
+            def via_tree():
+                t = ctg.einsum_tree(eq, *shp, optimize=spec["optimize"])
+                # ... and know the true extent of every label (an operand that
+                # broadcasts a label has extent 1 there, the label has not)
+                for term_, shape_ in zip(t.inputs, shp):
+                    for ix_, d_ in zip(term_, shape_):
+                        if t.size_dict[ix_] < d_:
+                            raise AssertionError(
+                                f"einsum_tree('{eq}', shapes {shp}): the tree takes label {ix_!r} to have size "
+                                f"{t.size_dict[ix_]}, an operand has extent {d_} there (costs are reported for the wrong sizes)"
+                            )
+                return t.contract(arrays)
+
+            ok, got = guarded(via_tree)
         else:
             via = "einsum"
             ok, got = guarded(ctg.einsum, eq, *arrays, optimize=spec["optimize"], **kw)
